@@ -56,6 +56,7 @@ type c11In struct {
 	Ddn        []uint32         `json:"ddn"`     // up4: UE addresses for which digests are injected while requests run
 	Sizes      map[string]int64 `json:"sizes"`   // up4: P4Info size overrides
 	WatchdogS  int              `json:"watchdog_s"`
+	DropConnMs []int            `json:"drop_conn_ms"` // up4: close the plug-in's P4Runtime connection at these times (ms after start)
 }
 
 type c11World struct {
@@ -137,7 +138,7 @@ func c11NewWorld(in c11In) (*c11World, error) {
 		}
 		ctx, cancel := context.WithCancel(context.Background())
 		cw.node = &PFCPNode{ctx: ctx, cancel: cancel, PacketConn: sock, done: make(chan struct{}),
-			pConnDone: make(chan string, 100), upf: cw.w.u, metrics: cw.w.sink}
+			pConnDone: make(chan string, 100), newPeersDone: make(chan struct{}), upf: cw.w.u, metrics: cw.w.sink}
 		go cw.node.Serve()
 		for _, c := range in.Conns {
 			pc, err := net.DialUDP("udp", &net.UDPAddr{IP: net.IPv4(127, 0, 0, 1)}, sock.LocalAddr().(*net.UDPAddr))
@@ -326,6 +327,29 @@ func c11Run(in c11In) (interface{}, error) {
 			for atomic.LoadInt32(&stop) == 0 {
 				cw.srv4.InjectDDN(in.Ddn[r.Intn(len(in.Ddn))])
 				time.Sleep(time.Duration(100+r.Intn(900)) * time.Microsecond)
+			}
+		}()
+	}
+	if len(in.DropConnMs) > 0 && cw.up4 != nil {
+		// the datapath connection is lost while requests are in flight: the next SendMsgToUPF re-connects
+		// (UP4.tryConnect -> setupChannel / initialize) while other associations are inside their own requests
+		bg.Add(1)
+		go func() {
+			defer bg.Done()
+			t0 := time.Now()
+			for _, ms := range in.DropConnMs {
+				for time.Since(t0) < time.Duration(ms)*time.Millisecond && atomic.LoadInt32(&stop) == 0 {
+					time.Sleep(200 * time.Microsecond)
+				}
+				if atomic.LoadInt32(&stop) != 0 {
+					return
+				}
+				cw.up4.tryConnectMu.Lock() // the harness reads p4client the way the plug-in's own re-connection does
+				c := cw.up4.p4client
+				cw.up4.tryConnectMu.Unlock()
+				if c != nil && c.conn != nil {
+					_ = c.conn.Close()
+				}
 			}
 		}()
 	}
